@@ -70,4 +70,67 @@ theorem roundTrip_spec (ρ : Role) (t : Txt) (replay : Bool)
       show safe bad (s.tr ++ [Ev.sent ρ (t.lines env)] ++ [Ev.got ρ r1]) = true
       rw [safe_append_quiet bad _ _ (by simp [isChangeOrSave])]; exact hc0.1
 
+
+theorem pd_err_safe {ρ : Role} {s1 : St} (h : Pd bad ρ s1) : safe bad s1.tr = true := h.safe
+
+/-- PAN-OS: every request is a GET, which net/http replays -/
+def PanosRep (bad : Role → Reply → Bool) : Prop := ∀ (ρ : Role) (r : Reply), r.arr = .closed → bad ρ r = false
+
+theorem panosHttpGet_spec (hrep : PanosRep bad) (ρ : Role) (t : Txt) (env : Env) (s : St) (hj : J bad s) (hm : s.mode = .run) :
+    HttpOut bad ρ (fun r => r.arr = .full ∧ r.status200 = true) (exec (panosHttpGet ρ t) env s) := by
+  have h1 := roundTrip_spec bad ρ t true (fun _ => hrep ρ) env s hj hm
+  simp only [panosHttpGet, panosHttpGetBody, exec_call _ _ _ _ _ hm, exec_seq, exec_op]
+  generalize exec (.roundTrip ρ t true) env s = s1 at h1
+  cases h1 with
+  | ok h harr he =>
+    have hm1 := h.mode
+    obtain ⟨tr0, hsplit, hs0, hf0⟩ := h.split
+    cases h200 : s1.last.status200 with
+    | true =>
+      simp [exec, hm1, evalCond, he, h200]
+      exact .ok ⟨rfl, tr0, hsplit, hs0, hf0⟩ ⟨harr, h200⟩ rfl
+    | false =>
+      simp [exec, hm1, evalCond, he, h200]
+      exact .err h.safe rfl rfl
+  | err hs he hm1 =>
+    simp [exec, hm1, evalCond, he]
+    exact .err hs rfl rfl
+
+theorem panosHttpPrefixGetLog_spec (hrep : PanosRep bad) (ρ : Role) (t : Txt) (env : Env) (s : St) (hj : J bad s)
+    (hm : s.mode = .run) :
+    HttpOut bad ρ (fun r => r.arr = .full ∧ r.status200 = true) (exec (panosHttpPrefixGetLog ρ t) env s) := by
+  have h1 := panosHttpGet_spec bad hrep ρ t env s hj hm
+  simp only [panosHttpPrefixGetLog, panosHttpPrefixGetLogBody, exec_call _ _ _ _ _ hm, exec_seq]
+  generalize exec (panosHttpGet ρ t) env s = s1 at h1
+  cases h1 with
+  | ok h hk he =>
+    have hm1 := h.mode
+    obtain ⟨tr0, hsplit, hs0, hf0⟩ := h.split
+    simp [exec, hm1]
+    exact .ok ⟨rfl, tr0, hsplit, hs0, hf0⟩ hk he
+  | err hs he hm1 =>
+    simp [exec, hm1]
+    exact .err hs he rfl
+
+theorem panosDoCmd_spec (hrep : PanosRep bad) (ρ : Role) (t : Txt) (env : Env) (s : St) (hj : J bad s)
+    (hm : s.mode = .run) :
+    HttpOut bad ρ (fun r => r.arr = .full ∧ r.status200 = true ∧ r.parses = true) (exec (panosDoCmd ρ t) env s) := by
+  have h1 := panosHttpPrefixGetLog_spec bad hrep ρ t env s hj hm
+  simp only [panosDoCmd, panosDoCmdBody, exec_call _ _ _ _ _ hm, exec_seq]
+  generalize exec (panosHttpPrefixGetLog ρ t) env s = s1 at h1
+  cases h1 with
+  | ok h hk he =>
+    have hm1 := h.mode
+    obtain ⟨tr0, hsplit, hs0, hf0⟩ := h.split
+    cases hp : s1.last.parses with
+    | true =>
+      simp [panosParseResponse, exec, hm1, evalCond, he, hp]
+      exact .ok ⟨rfl, tr0, hsplit, hs0, hf0⟩ ⟨hk.1, hk.2, hp⟩ rfl
+    | false =>
+      simp [panosParseResponse, exec, hm1, evalCond, he, hp]
+      exact .err h.safe rfl rfl
+  | err hs he hm1 =>
+    simp [panosParseResponse, exec, hm1, evalCond, he]
+    exact .err hs rfl rfl
+
 end NA.C09
